@@ -75,6 +75,19 @@ def cache_items(cache):
     return [(k, e.value) for k, e in list(cache._data.items())]
 
 
+def parse_key(k: str, tags: dict):
+    """(policy number of the key's etag or -1, request number) of a cache key of the shape `etag:env-json`; (None, request number or -1)
+    for a key of another shape (the engine is free to choose its keys: that alone is not a violation, but the model's bookkeeping of
+    'which policy's tag is this entry filed under' no longer applies — reported as a broken correspondence)"""
+    tag, sep, envjson = k.partition(":")
+    try:
+        if sep and tag in tags or (sep and len(tag) == 64 and all(c in "0123456789abcdef" for c in tag)):
+            return tags.get(tag, -1), int(json.loads(envjson)["resource"]["id"])
+        return None, int(json.loads(k)["resource"]["id"])
+    except Exception:  # noqa: BLE001
+        return None, -1
+
+
 def run_real(p0: int, progs: list, schedule: list, cache_kind: str):
     ctrl = schedmod.Controlled()
     cache = DictCache() if cache_kind == "dict" else DefaultInMemoryCache(64)
@@ -99,10 +112,13 @@ def run_real(p0: int, progs: list, schedule: list, cache_kind: str):
     enabled["on"] = False
     tags = {etag_of(i): i for i in {p0} | {c[1] for p in progs for c in p if c[0] == "set"}}
     snap_cache = []
+    odd_keys = 0
     for k, raw in cache_items(cache):
-        tag, _, envjson = k.partition(":")
-        rid = json.loads(envjson)["resource"]["id"]
-        snap_cache.append([tags.get(tag, -1), int(rid), int(str(raw.get("last_rule_id"))[1:])])
+        t_, rid = parse_key(k, tags)
+        if t_ is None:
+            odd_keys += 1
+            continue
+        snap_cache.append([t_, int(rid), int(str(raw.get("last_rule_id"))[1:])])
     oga = lambda n: object.__getattribute__(g, n)  # noqa: E731
     snap = {"returned": {t: list(v) for t, v in results.items()}, "cache": sorted(snap_cache),
             "etag": tags.get(oga("policy_etag"), -1), "pol": pol_number(oga("policy"))}
@@ -119,8 +135,10 @@ def run_real(p0: int, progs: list, schedule: list, cache_kind: str):
         probe[k] = int(str(d.rule_id)[1:])
     snap["probe"] = probe
     snap["final_pol"] = cur
-    snap["final_cache"] = sorted([tags.get(k.partition(":")[0], -1), int(json.loads(k.partition(":")[2])["resource"]["id"]),
-                                  int(str(raw.get("last_rule_id"))[1:])] for k, raw in cache_items(cache))
+    snap["final_cache"] = sorted([parse_key(k, tags)[0], parse_key(k, tags)[1], int(str(raw.get("last_rule_id"))[1:])]
+                                 for k, raw in cache_items(cache) if parse_key(k, tags)[0] is not None)
+    if odd_keys:
+        snap["keys_of_another_shape"] = odd_keys
     return snap
 
 
